@@ -28,7 +28,10 @@
       (`Proofs/C02GenValid.lean`).  Both calling conventions: under the frame-pointer convention
       the by-reference arguments are copied from the frame into their scratch slots by the
       routine's prologue, only the by-value parameter slots are ignored (`ignOf true p true`).
-    * `substring/extract/suffix`, `wideRatio`: as in `wt` / excluded.
+    * `substring/extract/suffix`: as in `wt`.
+    * `wideRatio ns ds` (new): both factor lists non-empty and not both singletons (what the
+      constructor checks), every factor a one-value operand of the fragment (calls allowed as for
+      other operands), and the side conditions W1, W2 (`wideOk`, below).
 
   `inFragmentR p` is the program-level predicate; `stageOf p fp` says which stage of the proof plan
   a program needs (1: acyclic call graph, by-value parameters, scratch-slot convention;
@@ -100,6 +103,74 @@ def callShapeOk (K : RK) (f : Nat) (args : List Expr) : Bool :=
    | some ks => refArgsOk K ks args
    | none => false)
 
+/-! ### `WideRatio` factors
+
+  The source semantics evaluates all factors first and multiplies afterwards; the generated code
+  multiplies as soon as a factor is on the stack (`mulw`, then the eight ops of `mulStep` after
+  every further factor) and the model's values `Val.u n` are unbounded naturals.  Two side
+  conditions make the two agree (both are needed: `Proofs/C02GenWide.lean`,
+  `wide_unbounded_counterexample`, `wide_exit_counterexample`):
+    * W1 the first two factors of a factor list with at least two factors are *syntactically
+      uint64* (`u64B`): `mulw` does not check that its operands are below 2^64, the source
+      semantics (`Src.wideProd`) checks that their product is below 2^128;
+    * W2 every factor that is evaluated after an opcode that can fail (all but the first two
+      numerators) is free of `Exit` and of calls (`noExit`): otherwise the source run could end
+      with `Exit` in a late factor while the machine has already failed in a multiplication. -/
+
+/-- opcodes whose result is a `uint64` below 2^64 whatever the operands are -/
+def u64Ops : List String :=
+  ["+", "-", "*", "/", "%", "<", ">", "<=", ">=", "&&", "||", "==", "!=", "!", "~"]
+
+/-- W1: if `e` yields one value, that value is a `uint64` below 2^64 -/
+def u64B : Expr → Bool
+  | .int n => decide (n < Avm.two64)
+  | .index v => decide (v < Avm.two64)
+  | .prim op _ _ => u64Ops.contains op
+  | .wideRatio _ _ => true
+  | .ite _ t (some e) => u64B t && u64B e
+  | .note (some e) => u64B e
+  | .nonce _ e => u64B e
+  | _ => false
+
+def u64Top : List Expr → Bool
+  | e0 :: e1 :: _ => u64B e0 && u64B e1
+  | _ => true
+
+mutual
+  /-- W2: no `Exit` and no call inside `e` -/
+  def noExit : Expr → Bool
+    | .exit _ => false
+    | .call _ _ => false
+    | .prim _ _ args => noExitL args
+    | .store _ e => noExit e
+    | .multi _ _ args _ => noExitL args
+    | .seq es => noExitL es
+    | .ite c t none => noExit c && noExit t
+    | .ite c t (some e) => noExit c && noExit t && noExit e
+    | .cond arms => noExitA arms
+    | .while_ c b => noExit c && noExit b
+    | .for_ i c s b => noExit i && noExit c && noExit s && noExit b
+    | .assert_ c => noExit c
+    | .ret (some e) => noExit e
+    | .wideRatio ns ds => noExitL ns && noExitL ds
+    | .substring s a b => noExit s && noExit a && noExit b
+    | .extract s a l => noExit s && noExit a && noExit l
+    | .suffix s a => noExit s && noExit a
+    | .note (some e) => noExit e
+    | .nonce _ e => noExit e
+    | _ => true
+  def noExitL : List Expr → Bool
+    | [] => true
+    | e :: es => noExit e && noExitL es
+  def noExitA : List (Expr × Expr) → Bool
+    | [] => true
+    | (c, b) :: rest => noExit c && noExit b && noExitA rest
+end
+
+/-- the side conditions W1, W2 on the factor lists of a `WideRatio` -/
+def wideOk (ns ds : List Expr) : Bool :=
+  u64Top ns && u64Top ds && noExitL (ns.drop 2) && noExitL ds
+
 mutual
   /-- `wtR K bc rc n e`: `e` is in the fragment, yields exactly `n` values on normal completion,
       `brk/cont` occur only if `bc`, `ret` only if `rc` (both: statement position only). -/
@@ -139,7 +210,9 @@ mutual
       (match K.okCalls with
        | some l => l.contains f
        | none => true) && wtRArgs K args && callShapeOk K f args
-    | .wideRatio _ _ => false
+    | .wideRatio ns ds =>
+      n == 1 && !ns.isEmpty && !ds.isEmpty && !(ns.length == 1 && ds.length == 1) &&
+      wtRArgs K ns && wtRArgs K ds && wideOk ns ds
     | .substring s a b => n == 1 && wtR K false false 1 s && wtR K false false 1 a && wtR K false false 1 b
     | .extract s a l => n == 1 && wtR K false false 1 s && wtR K false false 1 a && wtR K false false 1 l
     | .suffix s a => n == 1 && wtR K false false 1 s && wtR K false false 1 a
